@@ -37,9 +37,10 @@ LEVEL_TEXT = ('Theorems for every layer tree, request, callback result and every
 LEVEL_NOTE = ('Trusted: Coq kernel, the hand-written model Auth.v, the correspondence harness.  Validated only, not '
               'proved: the relation between the rasterised mask and the true geometry (-0.1 px buffer, PIL polygon '
               'fill, vertex-wise reprojection), shapely predicates, the Pillow integer formulas, opacity as an exact '
-              'fraction (dyadic values).  One defect of the code is a known finding: tile services ignore the global '
-              'limited_to when the layer entry has its own.  (The blend path of the merger that painted white through a '
-              'clipped layer was repaired in /repo, commit 2542798; its witness stays in the corpus.)')
+              'fraction (dyadic values); the intersection of the layer\'s and the global geometry of a tile request is an '
+              'abstract geometry whose predicates are inputs.  Two defects found here were repaired in /repo (blend path '
+              'painting white through a clipped layer; tile services ignoring the global limited_to when the layer entry '
+              'has its own); their witnesses stay in the corpus.')
 DESIGN_REF = 'DESIGN.md section 5, C10'
 RULE = ('case = merge: (request options, layer modes/options/clip, masks, pixels); app: (layer tree, request, callback '
         'result, geometric predicates); non-trivial = partial/none/unauthenticated callback results or a clip mask with '
@@ -59,7 +60,6 @@ EXPLANATION = ('decision logic proved for all trees / callback results / pixel c
 CORPUS = os.path.join(os.path.dirname(os.path.dirname(os.path.dirname(os.path.abspath(__file__)))), 'corpus', 'C10')
 
 SIG_BLEND = 'merge,layer-clip,blend-path-paints-white-outside'
-SIG_TILE_GLOBAL = 'tile,global-limited_to-ignored-when-layer-has-own'
 
 # ----------------------------------------------------------------------------------------------- shapes
 # A shape is given in coordinates relative to the query bbox (unit square, y up): list of polygons
@@ -863,8 +863,14 @@ class Recorder(object):
         self.tile_cov = 'not-called'
 
 
+def geom_key_of(srs, geom):
+    if geom.is_empty:
+        return ('empty',)
+    return (srs.srs_code, tuple(round(v, 3) for v in geom.bounds))
+
+
 def geom_key(cov):
-    return (cov.srs.srs_code, tuple(round(v, 3) for v in cov.bbox))
+    return geom_key_of(cov.srs, cov.geom)
 
 
 def run_app_config(ctx, cfg, reqs, out):
@@ -1244,6 +1250,54 @@ def handle_fi(ctx, cfg, req, cb, resp, status, rec, up_fi, tree, names, extents,
                             'upstream_fi_sources': up_fi, 'point_in': cls})
 
 
+def shapes_box_relation(shapes):
+    """relation of the intersection of several shapes to the unit square: (contains, intersects, robust)"""
+    from shapely.geometry import Polygon, box
+    from shapely.ops import unary_union
+    g = None
+    for shape in shapes:
+        u = unary_union([Polygon(ext, holes) for ext, holes in shape['polys']])
+        g = u if g is None else g.intersection(u)
+    b = box(0, 0, 1, 1)
+    c, i = bool(g.contains(b)), bool(g.intersects(b))
+    if c:
+        robust = g.buffer(-1.0 / 32).contains(b)
+    elif not i:
+        if not g.is_empty:
+            robust = not g.buffer(1.0 / 32).intersects(b)
+        else:
+            # the shapes themselves must be clearly apart (or one of them clearly off the tile)
+            us = [unary_union([Polygon(e, h) for e, h in sh['polys']]) for sh in shapes]
+            robust = any(not u.buffer(1.0 / 32).intersects(b) for u in us) or \
+                all(us[k].distance(us[k + 1]) > 1.0 / 32 for k in range(len(us) - 1))
+    else:
+        robust = g.intersection(b).area > 1.0 / 64 and b.difference(g).area > 1.0 / 64
+    return c, i, bool(robust)
+
+
+def tile_cov_index(cb, layer, q_srs, q_bbox):
+    """bounds-key -> list of geometry ids, for the coverages a tile request of `layer` can be limited to:
+    the layer's own geometry, the global one, and their intersection"""
+    from mapproxy.util.coverage import load_limited_to
+    idx = {}
+    if cb is None:
+        return idx
+    own = cb['layers'].get(layer, {}).get('limited_to')
+    glob = cb['limited_to']
+    covs = {}
+    for g in (own, glob):
+        if g is not None:
+            try:
+                covs[g] = load_limited_to(geom_limited_to(cb['geoms'][str(g)], q_srs, q_bbox))
+                idx[geom_key(covs[g])] = [g]
+            except Exception:  # noqa
+                pass
+    if own in covs and glob in covs:
+        geom = covs[own].geom.intersection(covs[glob].transform_to(covs[own].srs).geom)
+        idx[geom_key_of(covs[own].srs, geom)] = [own, glob]
+    return idx
+
+
 def handle_tile(ctx, cfg, req, cb, resp, status, rec, up_map, up_fi, names, extents, out, rep, fi_src):
     geoms = {} if cb is None else cb['geoms']
     svc = req['service']
@@ -1251,20 +1305,19 @@ def handle_tile(ctx, cfg, req, cb, resp, status, rec, up_map, up_fi, names, exte
     want_service = {'tms': 'tms', 'kml': 'kml', 'wmts_rest': 'wmts', 'wmts_kvp': 'wmts', 'wmts_fi': 'wmts.featureinfo'}[svc]
     if rec.cb_calls and (rec.cb_calls[0][0] != want_service or rec.cb_calls[0][1] != [req['layer']]):
         ctx.fail('tile,wrong-callback-arguments', 'callback called with %r' % (rec.cb_calls[0],), rep)
-    rel = {}
-    for g, spec in geoms.items():
-        c, i, dist = shape_box_relation(spec['shape'])
-        rel[int(g)] = (c, i, dist)
-    if any(d < 1.0 / 64 for (_c, _i, d) in rel.values()):
-        ctx.count('app.tile.skipped-borderline')
-        return
-    cont = llit(sorted(g for g, v in rel.items() if v[0]))
-    inter = llit(sorted(g for g, v in rel.items() if v[1]))
+    own = None if cb is None else cb['layers'].get(req['layer'], {}).get('limited_to')
+    glob = None if cb is None else cb['limited_to']
+    # the sets of geometries the request can be limited to (all of a set apply: intersection)
+    cands = [[g] for g in (own, glob) if g is not None]
+    if own is not None and glob is not None:
+        cands.append([own, glob])
+    lim_ids = [v for v in (own, glob) if v is not None]
     lname = names(req['layer'])
+    sets_lit = lambda sets: llit(sets, llit)  # noqa
     if svc == 'wmts_fi':
         x, y = req['pos']
         cls = dict((int(g), shape_class(spec['shape'], x / 64.0, 1 - y / 64.0, 64, 64, 0.5)) for g, spec in geoms.items())
-        if any(v == 'near' for v in cls.values()):
+        if any(cls[g] == 'near' for g in lim_ids):
             return
         body = resp.text if (resp is not None and status == 200) else ''
         if status == 200:
@@ -1274,19 +1327,24 @@ def handle_tile(ctx, cfg, req, cb, resp, status, rec, up_map, up_fi, names, exte
         else:
             obs = 'FI_notqueryable'
         infos = llit([cache['source']] if fi_src[cache['source']] else [])
-        # oracle: the geometry that applies (global, or the layer's) does not contain the point => nothing
+        # oracle: a geometry that applies (the layer's, the global one) does not contain the point => nothing
         if cb is not None and cb['kind'] == 'partial':
-            lim_ids = [v for v in (cb['layers'].get(req['layer'], {}).get('limited_to'), cb['limited_to']) if v is not None]
             if any(cls[g] == 'out' for g in lim_ids) and (up_fi or body.strip()):
-                own = cb['layers'].get(req['layer'], {}).get('limited_to')
-                known = own is not None and cls[own] != 'out'
-                ctx.fail(SIG_TILE_GLOBAL if known else 'wmts-fi,answer-outside-geometry',
+                ctx.fail('wmts-fi,answer-outside-geometry',
                          'feature info %r for a point outside the permitted geometry' % (body[:60],), rep)
-        out['tfi_terms'].append('(%s, %s, %s, %s, (%s))' % (zlit(lname), infos, cb_lit(cb, names),
-                                                            llit(sorted(g for g, v in cls.items() if v == 'in')), obs))
+        pin = [gs for gs in cands if all(cls[g] == 'in' for g in gs)]
+        out['tfi_terms'].append('(%s, %s, %s, %s, (%s))' % (zlit(lname), infos, cb_lit(cb, names), sets_lit(pin), obs))
         out['tfi_descr'].append({'stream': 'app', 'case': {'config': cfg, 'requests': [req]}, 'status': status,
-                                 'upstream_fi_sources': up_fi})
+                                 'upstream_fi_sources': up_fi, 'point_in': cls})
         return
+    rel = {}
+    for gs in cands:
+        rel[tuple(gs)] = shapes_box_relation([geoms[str(g)]['shape'] for g in gs])
+    if any(not r[2] for r in rel.values()):
+        ctx.count('app.tile.skipped-borderline')
+        return
+    cont = sets_lit([list(gs) for gs, v in rel.items() if v[0]])
+    inter = sets_lit([list(gs) for gs, v in rel.items() if v[1]])
     img = decode(resp) if (resp is not None and status == 200) else None
     # observed outcome
     if status in (401, 403):
@@ -1307,26 +1365,23 @@ def handle_tile(ctx, cfg, req, cb, resp, status, rec, up_map, up_fi, names, exte
             obs = 'TO_full'
         else:
             q_srs, q_bbox = extents[0] if extents and extents[0] else (None, None)
-            gidx = geom_index(cb, q_srs.replace('900913', '3857'), q_bbox) if q_srs else {}
-            g = gidx.get(geom_key(cov), -1)
+            gidx = tile_cov_index(cb, req['layer'], q_srs.replace('900913', '3857'), q_bbox) if q_srs else {}
+            gs_obs = gidx.get(geom_key(cov), [-1])
             if resp.content_type == 'image/png' and alphas[0] == 0 and alphas[1] == 0:
                 obs = 'TO_empty'
             elif alphas[0] == 0 and alphas[1] == 255:
-                obs = 'TO_masked %s' % zlit(g)
+                obs = 'TO_masked %s' % llit(gs_obs)
             else:
                 obs = 'TO_full'
         # pixel oracle / correspondence
         if cb is not None and cb['kind'] == 'partial':
-            own = cb['layers'].get(req['layer'], {}).get('limited_to')
-            lim_ids = [v for v in (own, cb['limited_to']) if v is not None]
             col = color_of(cache['source'])
             for (x, y) in sample_pixels(x_seed(req), 64, 64, 20):
                 rx, ry = (x + 0.5) / 64, 1 - (y + 0.5) / 64
                 cls = dict((g, shape_class(geoms[str(g)]['shape'], rx, ry, 64, 64, 1.0)) for g in lim_ids)
                 got = rgba.getpixel((x, y))
                 if any(c == 'out' for c in cls.values()) and got[3] != 0:
-                    known = own is not None and cls[own] != 'out'
-                    ctx.fail(SIG_TILE_GLOBAL if known else 'tile,clip-leak',
+                    ctx.fail('tile,clip-leak',
                              '%s tile %r of %s: pixel (%d,%d) lies outside the permitted geometry but is %r'
                              % (svc, req['tile'], req['layer'], x, y, got), rep)
                     break
@@ -1336,9 +1391,9 @@ def handle_tile(ctx, cfg, req, cb, resp, status, rec, up_map, up_fi, names, exte
                         ctx.fail('tile,content-lost-inside', '%s tile: pixel (%d,%d) well inside the geometry is %r, upstream colour %r'
                                  % (svc, x, y, got, col), rep)
                         break
-                if obs.startswith('TO_masked') and own is not None or (obs.startswith('TO_masked') and cb['limited_to'] is not None):
-                    g = own if own is not None else cb['limited_to']
-                    c = shape_class(geoms[str(g)]['shape'], rx, ry, 64, 64, 1.0)
+                if obs.startswith('TO_masked') and lim_ids:
+                    # mask of the intersection: outside as soon as one geometry excludes the pixel
+                    c = 'out' if any(v == 'out' for v in cls.values()) else ('in' if all(v == 'in' for v in cls.values()) else 'near')
                     if c != 'near':
                         out['tpx_terms'].append('(%s, %s, %s)' % (px_lit(col + (255,)), blit(c == 'out'), px_lit(got)))
                         out['tpx_descr'].append({'stream': 'app', 'case': {'config': cfg, 'requests': [req]}, 'pixel': [x, y],
@@ -1346,7 +1401,8 @@ def handle_tile(ctx, cfg, req, cb, resp, status, rec, up_map, up_fi, names, exte
     out['tile_terms'].append('(%s, %s, %s, %s, (%s), %s)' % (zlit(lname), cb_lit(cb, names), cont, inter, obs,
                                                            olit(None if (cache['store'] or status != 200) else bool(up_map), blit)))
     out['tile_descr'].append({'stream': 'app', 'case': {'config': cfg, 'requests': [req]}, 'status': status,
-                              'observed': obs, 'upstream': up_map, 'relations(contains,intersects,dist)': rel})
+                              'observed': obs, 'upstream': up_map,
+                              'relations(contains,intersects,robust)': dict((repr(k), v) for k, v in rel.items())})
 
 
 def x_seed(req):
@@ -1358,6 +1414,7 @@ Definition set_eqb (a b : list Z) : bool := forallb (fun x => mem x b) a && fora
 Definition strip (o : wms_out) : wms_out :=
   match o with W_ok rl c => W_ok (map (fun e : rentry => (0, snd (fst e), snd e)) rl) c | x => x end.
 Definition inl (l : list Z) (g : Z) : bool := mem g l.
+Definition inll (l : list (list Z)) (gs : list Z) : bool := existsb (list_eqb Z.eqb gs) l.
 """
 MAP_TYPE = 'list wlayer * list Z * option cbres * wms_out * option (list Z) * list Z * list Z'
 MAP_CHECK = ("fun c => let '(tree, req, cb, obs, cbarg, log, maybe) := c in "
@@ -1373,12 +1430,12 @@ FI_CHECK = ("fun c => let '(tree, ql, ls, cb, pin, obs) := c in "
             "| W_401, FI_401 | W_403, FI_403 => true "
             "| W_notqueryable, FI_notqueryable | W_unknown, FI_notqueryable => true "
             "| _, _ => false end")
-TILE_TYPE = 'Z * option cbres * list Z * list Z * tile_out * option bool'
+TILE_TYPE = 'Z * option cbres * list (list Z) * list (list Z) * tile_out * option bool'
 TILE_CHECK = ("fun c => let '(n, cb, cont, inter, obs, loaded) := c in "
-              "let m := tile_render n cb (inl cont) (inl inter) in "
+              "let m := tile_render n cb (inll cont) (inll inter) in "
               "tile_out_eqb m obs && match loaded with Some b => Bool.eqb (tile_loads m) b | None => true end")
-TFI_TYPE = 'Z * list Z * option cbres * list Z * fi_out'
-TFI_CHECK = ("fun c => let '(n, infos, cb, pin, obs) := c in fi_out_eqb (wmts_featureinfo n infos cb (inl pin)) obs")
+TFI_TYPE = 'Z * list Z * option cbres * list (list Z) * fi_out'
+TFI_CHECK = ("fun c => let '(n, infos, cb, pin, obs) := c in fi_out_eqb (wmts_featureinfo n infos cb (inll pin)) obs")
 PX_TYPE = 'ropts * list lmeta * column * option bool * px * Z'
 PX_CHECK = ("fun c => let '(o, ms, col, g, obs, tol) := c in "
             "let r := match ms with "
